@@ -33,18 +33,34 @@ def checks_only(sid, props):
     out = os.path.join(ROOT, 'seeded', sid)
     rec = json.load(open(os.path.join(out, 'meta.json')))
     patch = os.path.join(out, 'patch.diff')
-    rc, o = sh('git -C /repo status --porcelain --untracked-files=no')
-    if o.strip():
-        print('refusing: /repo has uncommitted changes')
-        return 2
-    rc, o = sh('git -C /repo apply %s' % patch)
-    if rc != 0:
-        print('patch does not apply to /repo:', o)
-        return 2
+    wt = os.environ.get('SEED_WORKTREE')
+    env = None
+    if wt:
+        # run the checks against the scratch worktree that has exactly this patch applied (VERIF_REPO), so that several
+        # seeded changes can be evaluated side by side; /repo is not touched at all
+        rc, o = sh('git -C %s checkout -- src && git -C %s apply %s' % (wt, wt, patch))
+        if rc != 0:
+            print('patch does not apply to the worktree:', o)
+            return 2
+        env = dict(os.environ)
+        env['VERIF_REPO'] = wt
+        rec['what_was_run'] = rec.get('what_was_run', '').replace(
+            '`git -C /repo apply patch.diff`, quick checks, `git -C /repo checkout -- .`',
+            'quick checks with VERIF_REPO=<scratch worktree with exactly patch.diff applied> (evaluated side by side with '
+            'other seeded changes; /repo untouched)')
+    else:
+        rc, o = sh('git -C /repo status --porcelain --untracked-files=no')
+        if o.strip():
+            print('refusing: /repo has uncommitted changes')
+            return 2
+        rc, o = sh('git -C /repo apply %s' % patch)
+        if rc != 0:
+            print('patch does not apply to /repo:', o)
+            return 2
     try:
         for p in props:
             t0 = time.time()
-            rc, o = sh('%s check.py %s --tier quick' % (PY, p), cwd=ROOT, timeout=3000)
+            rc, o = sh('%s check.py %s --tier quick' % (PY, p), cwd=ROOT, timeout=3000, env=env)
             lines = [l for l in o.splitlines() if 'new failure bucket' in l or l.startswith('VIOLATION') or 'regression' in l
                      or l.startswith('HARNESS')]
             prev = rec['checks'].get(p)
@@ -63,8 +79,9 @@ def checks_only(sid, props):
                         os.remove(os.path.join(ROOT, pth))
             print('  check', p, 'exit', rc, 'DETECTED' if rc == 1 else 'MISSED')
     finally:
-        sh('git -C /repo checkout -- .')
-        sh('git -C %s checkout -- evidence' % ROOT)
+        if not wt:
+            sh('git -C /repo checkout -- .')
+            sh('git -C %s checkout -- evidence' % ROOT)
     json.dump(rec, open(os.path.join(out, 'meta.json'), 'w'), indent=1)
     return 0
 
